@@ -274,6 +274,18 @@ func (ca *condAtoms) form(e ast.Expr, depth int) *cform {
 			return &cform{op: gNot, kids: []*cform{ca.form(x.X, depth)}, expr: x}
 		}
 	case *ast.BinaryExpr:
+		if len(ca.g.eqFlags) > 0 {
+			if id, c, eq, ok := eqCmpParts(f, x); ok {
+				if o := eqFlagVar(f, ca.g, id); o != nil && constant.Compare(ca.g.eqFlags[o], token.EQL, c) {
+					if k := ca.flagIndex(o); k >= 0 {
+						if eq {
+							return &cform{op: gLeaf, atom: -1 - k}
+						}
+						return &cform{op: gNot, kids: []*cform{{op: gLeaf, atom: -1 - k}}}
+					}
+				}
+			}
+		}
 		if len(ca.g.signFlags) > 0 {
 			if id, nonNeg, ok := signCmpParts(f, x); ok {
 				if o := f.ObjOf(id); o != nil && ca.g.signFlags[o] {
@@ -444,6 +456,14 @@ type guardAnalysis struct {
 	fties    []ftie
 	aux      map[int]int // condition atom -> auxiliary variable bit (atoms that share a condition with a leaf)
 	nAux     int
+	kills    map[ast.Node][]uint // per node: the variable bits whose value the node's assignments make unknown
+	killsAt  int                 // number of atoms when kills was filled
+	comps    []compLeaf          // leaves that recognise a composite condition as a whole
+}
+
+type compLeaf struct {
+	leaf int
+	expr ast.Expr
 }
 
 func b2i(b bool) int {
@@ -485,8 +505,8 @@ func (g *Graph) newGuardAnalysis(gd Guard, withFlags bool) *guardAnalysis {
 			}
 		}
 		ga.ca.flags = append(tied, rest...)
-		if len(ga.ca.flags) > 10-ga.nLeaf {
-			ga.ca.flags = ga.ca.flags[:10-ga.nLeaf]
+		if len(ga.ca.flags) > flagBudget-ga.nLeaf {
+			ga.ca.flags = ga.ca.flags[:flagBudget-ga.nLeaf]
 		}
 	}
 	ga.nFlag = len(ga.ca.flags)
@@ -496,7 +516,16 @@ func (g *Graph) newGuardAnalysis(gd Guard, withFlags bool) *guardAnalysis {
 		for _, b := range g.Blocks {
 			if len(b.Succs) == 2 {
 				if c := g.edgeCond(b, 0); c != nil {
-					ga.ca.form(c.E, 0)
+					cf := ga.ca.form(c.E, 0)
+					var comps []*cform
+					cf.composites(&comps)
+					for _, nd := range comps {
+						for i := 0; i < ga.nLeaf; i++ {
+							if l := ga.c.leaves[i]; l(Fact{nd.expr, true}) || l(Fact{nd.expr, false}) {
+								ga.comps = append(ga.comps, compLeaf{i, nd.expr})
+							}
+						}
+					}
 				}
 			}
 		}
@@ -504,7 +533,7 @@ func (g *Graph) newGuardAnalysis(gd Guard, withFlags bool) *guardAnalysis {
 	if withFlags {
 		// atoms that occur in a condition together with an atom a leaf recognises (or with a flag) are
 		// tracked too: `case a && x: ...; case a:` tells !x in the second case only if a is remembered
-		room := 11 - ga.nLeaf - ga.nFlag
+		room := flagBudget + 1 - ga.nLeaf - ga.nFlag
 		if room > 4 {
 			room = 4
 		}
@@ -1233,8 +1262,172 @@ func (g *Graph) boolFlags() []types.Object {
 			g.flagIdent[o] = id
 		}
 	}
+	// locals of a basic type that conditions compare with one constant only (an enumeration result tested against its
+	// "nothing wrong" value): "equals that constant" is tracked; an assignment of a constant decides it, an assignment of
+	// another such variable copies it, anything else leaves it unknown
+	g.eqFlags = map[types.Object]constant.Value{}
+	eqCand := map[types.Object]constant.Value{}
+	eqIdent := map[types.Object]*ast.Ident{}
+	eqBad := map[types.Object]bool{}
+	for _, b := range g.Blocks {
+		for k := range b.Succs {
+			c := g.edgeCond(b, k)
+			if c == nil {
+				continue
+			}
+			ast.Inspect(c.E, func(n ast.Node) bool {
+				be, ok := n.(*ast.BinaryExpr)
+				if !ok {
+					return true
+				}
+				if id, cv, _, ok := eqCmpParts(f, be); ok {
+					cexpr := be.Y
+					if f.ConstVal(be.Y) == nil {
+						cexpr = be.X
+					}
+					for _, o := range []types.Object{f.ObjOf(id), f.ObjOf(ast.Unparen(f.Resolve(id)))} {
+						if o != nil {
+							if g.eqConst == nil {
+								g.eqConst = map[types.Object]ast.Expr{}
+							}
+							if g.eqConst[o] == nil {
+								g.eqConst[o] = cexpr
+							}
+						}
+						if o == nil {
+							continue
+						}
+						if old, has := eqCand[o]; has && !constant.Compare(old, token.EQL, cv) {
+							eqBad[o] = true
+						}
+						eqCand[o] = cv
+						if eqIdent[o] == nil {
+							eqIdent[o] = id
+						}
+					}
+				}
+				return true
+			})
+		}
+	}
+	var eqObjs []types.Object
+	for o := range eqCand {
+		eqObjs = append(eqObjs, o)
+	}
+	sort.Slice(eqObjs, func(i, j int) bool { return eqObjs[i].Pos() < eqObjs[j].Pos() })
+	for _, o := range eqObjs {
+		v, isVar := o.(*types.Var)
+		if !isVar || eqBad[o] || v.IsField() || v.Pkg() == nil || v.Parent() == v.Pkg().Scope() || f.assignedInLit(o) || g.nilFlags[o] || g.signFlags[o] {
+			continue
+		}
+		if b, isB := v.Type().Underlying().(*types.Basic); !isB || b.Info()&types.IsBoolean != 0 {
+			continue
+		}
+		already := false
+		for _, x := range out {
+			if x == o {
+				already = true
+			}
+		}
+		if already {
+			continue
+		}
+		isParam := false
+		if f.Type.Params != nil {
+			for _, fld := range f.Type.Params.List {
+				for _, nm := range fld.Names {
+					if f.Info().Defs[nm] == o {
+						isParam = true
+					}
+				}
+			}
+		}
+		if isParam {
+			continue
+		}
+		// at least one assignment of a constant (otherwise nothing is ever known), no address taken, not a loop variable
+		nConst, okAll := 0, true
+		ast.Inspect(f.Body, func(nd ast.Node) bool {
+			switch st := nd.(type) {
+			case *ast.AssignStmt:
+				for i, l := range st.Lhs {
+					if lid, isId := l.(*ast.Ident); isId && f.ObjOf(lid) == o && len(st.Lhs) == len(st.Rhs) {
+						if f.ConstVal(st.Rhs[i]) != nil {
+							nConst++
+						}
+					}
+				}
+			case *ast.IncDecStmt:
+				if lid, isId := st.X.(*ast.Ident); isId && f.ObjOf(lid) == o {
+					okAll = false
+				}
+			case *ast.RangeStmt:
+				for _, kv := range []ast.Expr{st.Key, st.Value} {
+					if lid, isId := kv.(*ast.Ident); isId && f.ObjOf(lid) == o {
+						okAll = false
+					}
+				}
+			case *ast.UnaryExpr:
+				if st.Op == token.AND && f.ObjOf(ast.Unparen(st.X)) == o {
+					okAll = false
+				}
+			}
+			return true
+		})
+		if !okAll || nConst == 0 {
+			continue
+		}
+		g.eqFlags[o] = eqCand[o]
+		out = append(out, o)
+		if g.flagIdent == nil {
+			g.flagIdent = map[types.Object]*ast.Ident{}
+		}
+		g.flagIdent[o] = eqIdent[o]
+	}
 	g.flags = &out
 	return out
+}
+
+// eqCmpParts views be as `v == C` / `v != C` (either order) for a local identifier v and a constant C.
+func eqCmpParts(f *Fn, be *ast.BinaryExpr) (id *ast.Ident, c constant.Value, eq bool, ok bool) {
+	if be.Op != token.EQL && be.Op != token.NEQ {
+		return nil, nil, false, false
+	}
+	x, y := ast.Unparen(be.X), ast.Unparen(be.Y)
+	if f.ConstVal(x) != nil && f.ConstVal(y) == nil {
+		x, y = y, x
+	}
+	id, isId := x.(*ast.Ident)
+	cv := f.ConstVal(y)
+	if !isId || cv == nil || f.ConstVal(x) != nil {
+		return nil, nil, false, false
+	}
+	switch cv.Kind() {
+	case constant.Int, constant.String:
+	default:
+		return nil, nil, false, false
+	}
+	if v, isVar := f.ObjOf(id).(*types.Var); !isVar || v.IsField() {
+		return nil, nil, false, false
+	}
+	return id, cv, be.Op == token.EQL, true
+}
+
+// eqFlagVar: the tracked variable the identifier stands for (itself, or the variable it is a plain copy of).
+func eqFlagVar(f *Fn, g *Graph, id *ast.Ident) types.Object {
+	if o := f.ObjOf(id); o != nil {
+		if _, ok := g.eqFlags[o]; ok {
+			return o
+		}
+	}
+	if rid, isId := ast.Unparen(f.Resolve(id)).(*ast.Ident); isId && rid != id {
+		if o := f.ObjOf(rid); o != nil {
+			if _, ok := g.eqFlags[o]; ok {
+				return o
+			}
+		}
+	}
+	return nil
 }
 
 // signCmpParts views be as a comparison of a local integer variable with 0 or -1 that, for a value that is -1 or
@@ -1447,6 +1640,17 @@ func bsEmpty(a []uint64) bool {
 
 // transferNode applies the effect of a node on the flag variables.
 func (ga *guardAnalysis) transferNode(n ast.Node, s []uint64) []uint64 {
+	for _, bit := range ga.killBits(n) {
+		out := make([]uint64, ga.words)
+		for a := 0; a < 1<<uint(ga.nVar); a++ {
+			if s[a/64]&(1<<uint(a%64)) != 0 {
+				out[a/64] |= 1 << uint(a%64)
+				na := a ^ (1 << bit)
+				out[na/64] |= 1 << uint(na%64)
+			}
+		}
+		s = out
+	}
 	for i, pred := range ga.c.events {
 		if i >= ga.nLeaf || !pred(n) {
 			continue
@@ -1483,6 +1687,29 @@ func (ga *guardAnalysis) transferNode(n ast.Node, s []uint64) []uint64 {
 			case ga.g.signFlags[ga.ca.flags[k]]:
 				if nn, ok := signOf(f, rhs); ok {
 					cf = &cform{op: gTrue, val: nn}
+				}
+			case ga.g.eqFlags[ga.ca.flags[k]] != nil:
+				want := ga.g.eqFlags[ga.ca.flags[k]]
+				if cv := f.ConstVal(rhs); cv != nil {
+					if cv.Kind() == want.Kind() {
+						cf = &cform{op: gTrue, val: constant.Compare(cv, token.EQL, want)}
+					}
+				} else if rid, isId := ast.Unparen(rhs).(*ast.Ident); isId {
+					// a copy of another tracked variable compared with the same constant
+					if o2 := f.ObjOf(rid); o2 != nil {
+						if c2, has := ga.g.eqFlags[o2]; has && constant.Compare(c2, token.EQL, want) {
+							if k2 := ga.ca.flagIndex(o2); k2 >= 0 {
+								cf = &cform{op: gLeaf, atom: -1 - k2}
+							}
+						}
+					}
+				}
+				if cf == nil && rhs != nil && callFree(rhs) {
+					// any other value: the flag is whatever `rhs == C` is (a condition atom like any other, so a leaf written
+					// about that comparison is tied to the flag)
+					if ce := ga.g.eqConst[ga.ca.flags[k]]; ce != nil {
+						cf = ga.ca.form(&ast.BinaryExpr{X: rhs, Op: token.EQL, Y: ce, OpPos: rhs.Pos()}, 0)
+					}
 				}
 			default:
 				cf = ga.ca.form(rhs, 0)
@@ -1543,6 +1770,14 @@ func (ga *guardAnalysis) transferNode(n ast.Node, s []uint64) []uint64 {
 					// zero value: false
 					// zero value: false for a boolean, nil (flag true) for a pointer-like variable
 					zero := ga.g.nilFlags[ga.ca.flags[k]] || ga.g.signFlags[ga.ca.flags[k]]
+					if want := ga.g.eqFlags[ga.ca.flags[k]]; want != nil {
+						switch want.Kind() {
+						case constant.Int:
+							zero = constant.Sign(want) == 0
+						case constant.String:
+							zero = constant.StringVal(want) == ""
+						}
+					}
 					bit := uint(ga.nLeaf + k)
 					out := make([]uint64, ga.words)
 					for a := 0; a < 1<<uint(ga.nVar); a++ {
@@ -1579,6 +1814,171 @@ func (ga *guardAnalysis) transferNode(n ast.Node, s []uint64) []uint64 {
 		}
 	}
 	return s
+}
+
+// killBits: the node (re)defines variables; a condition atom that mentions such a variable - an occurrence whose value
+// comes from this very definition, or from no single definition - no longer says anything about the new value, so the
+// leaves tied to it and its auxiliary bit become unknown. (Atoms are values: an occurrence reached only by another
+// definition of the variable keeps its meaning; the case that matters is a definition executed again by a loop.)
+// Leaves tied to a tracked flag follow the flag instead.
+func (ga *guardAnalysis) killBits(n ast.Node) []uint {
+	if ga.kills == nil || ga.killsAt != len(ga.ca.exprs) {
+		ga.kills = map[ast.Node][]uint{}
+		ga.killsAt = len(ga.ca.exprs)
+	}
+	if b, ok := ga.kills[n]; ok {
+		return b
+	}
+	g := ga.g
+	f := g.Fn
+	var targets []ast.Expr
+	var rhs []ast.Expr
+	switch st := n.(type) {
+	case *ast.AssignStmt:
+		targets = st.Lhs
+		rhs = st.Rhs
+	case *ast.IncDecStmt:
+		targets = []ast.Expr{st.X}
+	case *ast.ValueSpec:
+		for _, nm := range st.Names {
+			targets = append(targets, nm)
+		}
+		rhs = st.Values
+	case *ast.Ident:
+		if rs, isRange := f.Prog.Parent(st).(*ast.RangeStmt); isRange && (rs.Key == ast.Expr(st) || rs.Value == ast.Expr(st)) {
+			targets = []ast.Expr{st}
+		}
+	}
+	if len(targets) == 0 {
+		ga.kills[n] = nil
+		return nil
+	}
+	isRhs := func(e ast.Expr) bool {
+		for _, r := range rhs {
+			if r == e {
+				return true
+			}
+		}
+		return false
+	}
+	// does the expression mention a value this node defines?
+	mentions := func(e ast.Expr) bool {
+		hit := false
+		for _, t := range targets {
+			t = ast.Unparen(t)
+			switch tx := t.(type) {
+			case *ast.Ident:
+				o := f.ObjOf(tx)
+				if o == nil || tx.Name == "_" {
+					continue
+				}
+				ast.Inspect(e, func(m ast.Node) bool {
+					id, isId := m.(*ast.Ident)
+					if !isId || hit || f.ObjOf(id) != o || id == tx {
+						return !hit
+					}
+					if id.Pos() == token.NoPos {
+						hit = true
+						return false
+					}
+					site := g.FactSite(id)
+					if site.B == nil {
+						hit = true
+						return false
+					}
+					defs, entry := g.ReachingDefsAvoiding(id, site, nil)
+					if entry && len(defs) == 0 {
+						return true // a parameter / never assigned before: not this node's value
+					}
+					for _, d := range defs {
+						if d == n {
+							hit = true
+						}
+						if vs, isVS := n.(*ast.ValueSpec); isVS {
+							if ds, isDS := d.(*ast.DeclStmt); isDS {
+								if gd, isGD := ds.Decl.(*ast.GenDecl); isGD {
+									for _, sp := range gd.Specs {
+										if sp == ast.Spec(vs) {
+											hit = true
+										}
+									}
+								}
+							}
+						}
+					}
+					_ = isRhs
+					return !hit
+				})
+			case *ast.SelectorExpr:
+				// a store into a field changes state, it does not create a new value: the facts recorded about the
+				// field's earlier content stay what they are (the rules read them as "at the time of the test") unless
+				// the store and the test lie in the same loop, where the next iteration tests the new content
+				if lp := f.LoopOf(n); lp == nil || !Encloses(lp, e) {
+					continue
+				}
+				fo := f.Info().Uses[tx.Sel]
+				root := f.RootObj(tx)
+				ast.Inspect(e, func(m ast.Node) bool {
+					if sel, isSel := m.(*ast.SelectorExpr); isSel && !hit && fo != nil && f.Info().Uses[sel.Sel] == fo && f.RootObj(sel) == root {
+						hit = true
+					}
+					return !hit
+				})
+			default:
+				root := f.RootObj(t)
+				if root == nil {
+					continue
+				}
+				if _, isVar := root.(*types.Var); !isVar {
+					continue
+				}
+				if lp := f.LoopOf(n); lp == nil || !Encloses(lp, e) {
+					continue
+				}
+				ast.Inspect(e, func(m ast.Node) bool {
+					if id, isId := m.(*ast.Ident); isId && !hit && f.ObjOf(id) == root {
+						// only element / pointee reads of that variable
+						switch f.Prog.Parent(id).(type) {
+						case *ast.IndexExpr, *ast.StarExpr:
+							hit = true
+						}
+					}
+					return !hit
+				})
+			}
+		}
+		return hit
+	}
+	flagLeaf := map[int]bool{}
+	for _, t := range ga.fties {
+		flagLeaf[t.leaf] = true
+	}
+	set := map[uint]bool{}
+	for j, e := range ga.ca.exprs {
+		if !mentions(e) {
+			continue
+		}
+		for _, t := range ga.tiesFor(j) {
+			if !flagLeaf[t.leaf] {
+				set[uint(t.leaf)] = true
+			}
+		}
+		if bit, isAux := ga.aux[j]; isAux {
+			set[uint(bit)] = true
+		}
+	}
+	for _, c := range ga.comps {
+		if !flagLeaf[c.leaf] && mentions(c.expr) {
+			set[uint(c.leaf)] = true
+		}
+	}
+	var bits []uint
+	for b := range set {
+		bits = append(bits, b)
+	}
+	sort.Slice(bits, func(i, j int) bool { return bits[i] < bits[j] })
+	ga.kills[n] = bits
+	return bits
 }
 
 // nilForm describes whether the assigned value is nil: the literal nil (true), an
@@ -1775,6 +2175,19 @@ func (g *Graph) Dominated(s Site, guard Guard) bool {
 			i = 0
 		}
 		st := ga.stateAt(in, s.B, i)
+		if os.Getenv("MLB_DEBUG_DOM") != "" {
+			var ax []string
+			for j, bit := range ga.aux {
+				ax = append(ax, fmt.Sprintf("%d:%s", bit, types.ExprString(ga.ca.exprs[j])))
+			}
+			var sts []int
+			for a := 0; a < 1<<uint(ga.nVar); a++ {
+				if st[a/64]&(1<<uint(a%64)) != 0 {
+					sts = append(sts, a)
+				}
+			}
+			fmt.Fprintln(os.Stderr, "Dominated", g.Fn.Name(), g.Fn.Prog.Rel(s.Pos()), "nLeaf", ga.nLeaf, "flags", ga.ca.flags, "aux", ax, "state", sts, "subset", bsSubset(st, ga.holds))
+		}
 		if bsSubset(st, ga.holds) {
 			return true
 		}
@@ -2206,6 +2619,19 @@ func (g *Graph) RegionEnds(start *cfg.Block, region ast.Node, guard Guard) []Ite
 	var out []IterationEnd
 	for k, st := range ends {
 		out = append(out, IterationEnd{From: k.b, Break: k.br, OK: bsSubset(st, ga.holds)})
+		if os.Getenv("MLB_DEBUG_GUARD") != "" && !bsSubset(st, ga.holds) {
+			var bad []int
+			for a := 0; a < 1<<uint(ga.nVar); a++ {
+				if st[a/64]&(1<<uint(a%64)) != 0 && ga.holds[a/64]&(1<<uint(a%64)) == 0 {
+					bad = append(bad, a)
+				}
+			}
+			var ax []string
+			for j, bit := range ga.aux {
+				ax = append(ax, fmt.Sprintf("%d:%s", bit, types.ExprString(ga.ca.exprs[j])))
+			}
+			fmt.Fprintln(os.Stderr, "RegionEnds", g.Fn.Name(), "end block", k.b.Index, "nLeaf", ga.nLeaf, "flags", ga.ca.flags, "aux", ax, "bad assignments", bad)
+		}
 	}
 	return out
 }
@@ -2302,3 +2728,6 @@ func BlockOutside(b *cfg.Block, region ast.Node) bool {
 	}
 	return false
 }
+
+// flagBudget bounds the number of guard leaves plus tracked flags of one analysis (the state space is 2^n).
+const flagBudget = 12
